@@ -1649,7 +1649,22 @@ class Analyzer(Analysis):
             arms = [(int(v), tgt) for v, tgt in t["arms"]]
             if self.final:
                 self.sw_facts[bi] = d
-            if d is not None and d[0] == "bool":
+            forced = None
+            if d is not None and d[0] == "bool" and self.force_sym:
+                # `tag == CONST` / `tag != CONST` tested through a comparison instead of a switch on the value
+                diff = d[2] - d[3]
+                if diff.t and all(s in self.force_sym for s, _k in diff.t):
+                    val = diff.c + sum(k * self.force_sym[s] for s, k in diff.t)
+                    forced = {"Eq": val == 0, "Ne": val != 0, "Lt": val < 0, "Le": val <= 0, "Gt": val > 0, "Ge": val >= 0}.get(d[1])
+            if forced is not None:
+                # the switch is on the bool: arm value 0 = false
+                want_v = 1 if forced else 0
+                hit = [tgt for v, tgt in arms if (v != 0) == bool(want_v)]
+                s2 = st.copy()
+                for s_, _k in (d[2] - d[3]).t:
+                    self.add_cmp(s2, "Eq", Lin.sym(s_), Lin.const(self.force_sym[s_]))
+                out.append((hit[0] if hit else t["otherwise"], s2))
+            elif d is not None and d[0] == "bool":
                 for v, tgt in arms:
                     s2 = st.copy()
                     self.add_cmp(s2, d[1] if v != 0 else NEG[d[1]], d[2], d[3])
@@ -2097,6 +2112,13 @@ class Analyzer(Analysis):
         order = self.rpo()
         pos = {n: i for i, n in enumerate(order)}
         self.modes = self.mode_locals()
+        # the partition flag of an inlined helper is cleared on every back edge: it never outlives an iteration, so a change
+        # of it is not a mode transition that needs a peeled iteration
+        _names = b.local_names()
+        persistent = [not str(_names.get(l, "")).startswith("inlined_helper_failed") for l in self.modes]
+
+        def transition(k0, k1):
+            return any(p and a is not None and a != b2 for p, a, b2 in zip(persistent, k0, k1))
         self.live_in, self.always_live = self.liveness()
         self.always_live = set(self.always_live) | set(self.modes)     # partition flags survive joins even when never read
         self.cands = {}
@@ -2136,10 +2158,11 @@ class Analyzer(Analysis):
                     # changes is peeled ("e" phase) and rejoins the steady state at the next back edge
                     mk = self.mode_key(s2)
                     # a flag receiving its first value (None -> c) is initialisation, not a transition
-                    if any(a is not None and a != b2 for a, b2 in zip(node[1][0], mk)):
-                        phase = "e"
-                    elif node[1][1] == "e" and pos.get(s, 0) <= pos.get(bi, 0):
+                    # (a flag that changes in the very block that closes the iteration leaves nothing to peel)
+                    if pos.get(s, 0) <= pos.get(bi, 0) and (node[1][1] == "e" or transition(node[1][0], mk)):
                         phase = "s"
+                    elif transition(node[1][0], mk):
+                        phase = "e"
                     else:
                         phase = node[1][1]
                     dst = (s, (mk, phase))
